@@ -86,15 +86,26 @@ def obs_events(chk):
     rng = np.random.RandomState(1700 + chk.seed)
     batch = obs.Batch('ObsC17')
     reps = 20 if chk.tier == 'quick' else 200
-    for rep in range(reps):
-        K = int(rng.randint(1, 5))
-        real = bool(rep % 4 == 3)
-        if real:
-            K = 2 * max(1, K // 2)
-        P = int(rng.randint(K + 1, 17))
-        N = int(rng.randint(2 * P, 129))
-        nfft = int(rng.choice([64, 96, 128, 101]))
-        nfft = max(nfft, N if False else nfft)
+    # boundaries first: smallest admissible order P = K+1, shortest record N = 2P, longest N = 128 (more than the 100
+    # rows the routine keeps), odd and even NFFT, real and complex data; then random configurations
+    grid = []
+    for K in (1, 2, 3, 4):
+        for P in (K + 1, K + 2, 16):
+            for N in (2 * P, 128):
+                grid.append((K, P, N, 101 if (K + P + N) % 2 else 64, K % 2 == 0 and P != 16))
+    if chk.tier == 'quick':
+        grid = [g for i, g in enumerate(grid) if i % 2 == chk.seed % 2 or g[1] == g[0] + 1]
+    for rep in range(reps + len(grid)):
+        if rep < len(grid):
+            K, P, N, nfft, real = grid[rep]
+        else:
+            K = int(rng.randint(1, 5))
+            real = bool(rep % 4 == 3)
+            if real:
+                K = 2 * max(1, K // 2)
+            P = int(rng.randint(K + 1, 17))
+            N = int(rng.randint(2 * P, 129))
+            nfft = int(rng.choice([64, 96, 128, 101]))
         # distinct on-grid frequencies, at least 3 bins apart
         while True:
             if real:
